@@ -2,6 +2,7 @@ package main
 
 import (
 	"bytes"
+	"unsafe"
 
 	"github.com/free5gc/ike/message"
 )
@@ -192,6 +193,29 @@ func c20Deliver(c *deliverCtx) {
 	}
 }
 
+// overlaps reports whether two byte slices share memory (backing-array ranges intersect).
+func overlaps(a, b []byte) bool {
+	if cap(a) == 0 || cap(b) == 0 {
+		return false
+	}
+	a0 := uintptr(unsafe.Pointer(unsafe.SliceData(a)))
+	b0 := uintptr(unsafe.Pointer(unsafe.SliceData(b)))
+	return a0 < b0+uintptr(cap(b)) && b0 < a0+uintptr(cap(a))
+}
+
+// referencesBuffer: does the message (header bookkeeping included, Encrypted payload data included) point into buf?
+func referencesBuffer(m *message.IKEMessage, buf []byte) string {
+	if m.IKEHeader != nil && overlaps(m.PayloadBytes, buf) {
+		return "header.PayloadBytes"
+	}
+	for _, p := range m.Payloads {
+		if e, ok := p.(*message.Encrypted); ok && overlaps(e.EncryptedData, buf) {
+			return "Encrypted.EncryptedData"
+		}
+	}
+	return ""
+}
+
 func headerTuple(m *message.IKEMessage) [7]uint64 {
 	return [7]uint64{m.InitiatorSPI, m.ResponderSPI, uint64(m.MajorVersion), uint64(m.MinorVersion), uint64(m.ExchangeType), uint64(m.Flags), uint64(m.MessageID)}
 }
@@ -253,6 +277,10 @@ func c20Send(c *sendCtx) {
 			}
 		}
 		first := clone(c.out)
+		if f := referencesBuffer(c.msg, c.out); f != "" {
+			w.violate("message_references_returned_buffer", f, "after Encode the message's %s points into the buffer that was returned to the caller", f)
+			return
+		}
 		scribble(c.out, "complement", 0)
 		w.stats.inc("fault_txbuf_scribble")
 		if d := specDiff(before, extract(c.msg)); d != "" {
@@ -301,6 +329,10 @@ func c20Send(c *sendCtx) {
 		return
 	}
 	afterProtect := extract(c.msg)
+	if f := referencesBuffer(c.msg, c.out); f != "" {
+		w.violate("message_references_returned_buffer", f, "after EncodeEncrypt the message's %s points into the datagram buffer that was returned to the caller", f)
+		return
+	}
 	scribble(c.out, "complement", 0)
 	w.stats.inc("fault_txbuf_scribble")
 	if d := specDiff(afterProtect, extract(c.msg)); d != "" {
